@@ -250,6 +250,14 @@ def main(repo, outdir):
             if ast.unparse(c.value) != "tuple((arg.flat[0] if isinstance(arg, np.ndarray) and arg.size == 1 else arg for arg in args))":
                 fail(c, "argument conversion in execute")
 
+        # ---------------- functions given an implementation of FormaK's own (everything else is printed by sympy's numpy printer):
+        # exactly the reciprocal functions, each as the reciprocal of its numpy counterpart
+        mods = [n.value for n in ast.parse(open(path).read()).body
+                if isinstance(n, ast.Assign) and len(n.targets) == 1 and path_of(n.targets[0]) == "DEFAULT_MODULES"]
+        want_mods = ("('scipy', 'numpy', 'math', {'sec': lambda v: 1.0 / np.cos(v), 'sech': lambda v: 1.0 / np.cosh(v), "
+                     "'csch': lambda v: 1.0 / np.sinh(v), 'coth': lambda v: 1.0 / np.tanh(v)})")
+        if len(mods) != 1 or ast.unparse(mods[0]) != want_mods:
+            raise Untranslatable("DEFAULT_MODULES changed: " + (ast.unparse(mods[0]) if mods else "missing"))
         # ---------------- Model
         init = get_source_func(path, "Model.__init__")
         for attr, src in (("state", "symbolic_model.state"), ("calibration", "symbolic_model.calibration"), ("control", "symbolic_model.control")):
